@@ -4,6 +4,7 @@ CONSTANTS P = 3
           MaxClock = 10
           MaxPeerKa = 2
           MaxReconnects = 0
+          MaxFaults = 0
           MaxBlocks = 1
 INVARIANT TypeOK
 INVARIANT NoFalseTimeout
